@@ -21,6 +21,11 @@ def scenario(rec, idx, seed=0):
     """rec = {"t": statement, "asserts": assertion list computed by Stark.tla, "corruptions": [...]}"""
     sc = _scenario(rec["t"], idx, seed, rec.get("asserts"))
     sc["stmt"] = rec["t"]
+    t = rec["t"]
+    if t.get("auxd"):
+        sc["shape"].update(aux_degs=t["auxd"], aux_rands=t["auxr"], lagrange=bool(t["lag"]), aux_asserts=rec.get("auxasserts", []))
+    elif t.get("lag"):
+        sc["shape"].update(lagrange=True)
     sc["ccols"] = rec.get("ccols", 0)
     sc["layers"] = rec.get("layers", 0)
     return sc
